@@ -66,6 +66,20 @@ def run(ctx):
         for _ in range(12):
             cases.append(("generate_retail_mac", (gens.key(rng, ks), gens.key(rng, ks), rng.randbytes(rng.randrange(0, 9)), rng.choice((1, 2)), None)))
             cases.append(("generate_cbc_mac", (gens.key(rng, ks), rng.randbytes(rng.randrange(0, 20)), rng.choice((1, 2, 3)), None, False)))
+    # DES weak / semi-weak key components in every position (the standard defines the MAC for them like for any key),
+    # structured messages (all-zero, repeated block, 0x80 tails)
+    for w in gens.WEAK_DES:
+        r8 = rng.randbytes(8)
+        for key in (w, w + r8, r8 + w, w + w, w + r8 + w, r8 + r8 + w, r8 + w + rng.randbytes(8)):
+            d = gens.special_bytes(rng, rng.randrange(0, 33))
+            cases.append(("generate_cbc_mac", (key, d, rng.choice((1, 2, 3)), None, False)))
+        cases.append(("generate_retail_mac", (w, rng.randbytes(8), gens.special_bytes(rng, 17), 1, None)))
+        cases.append(("generate_retail_mac", (rng.randbytes(8), w, gens.special_bytes(rng, 16), 2, None)))
+        cases.append(("generate_retail_mac", (w + r8, r8 + w, gens.special_bytes(rng, 8), 3, 4)))
+    for alg_aes in (False, True):
+        for n in (0, 1, 8, 16, 24, 32, 33):
+            for _ in range(2):
+                cases.append(("generate_cbc_mac", (gens.key(rng, 16), gens.special_bytes(rng, n), rng.choice((1, 2, 3)), None, alg_aes)))
     for padding in (-3, -2, -1, 0, 4, 5):
         cases.append(("generate_cbc_mac", (rng.randbytes(16), b"abc", padding, None, True)))
         cases.append(("generate_retail_mac", (rng.randbytes(16), rng.randbytes(16), b"abc", padding, None)))
